@@ -252,6 +252,51 @@ func vh_C09_PreAllocConcurrently() {
 	vfReach("end")
 }
 
+// reconfiguring a quiescent pool through its setters: the new maximum is the bound from then on, work is still run
+// exactly once, and an Invokable re-pointed at another pool schedules there
+func vh_C09_Reconfigured() {
+	vfSetMapOrder(2)
+	l := &c09Log{started: map[int]int{}}
+	p := c09Pool(l, 1, 0, 4, 0)
+	vfAssert("first-job-accepted", p.Schedule(l.job(0, false, false)) == nil)
+	vfQuiesce()
+	newMax := vfRange("new-max", 1, 2)
+	switch vfChoose("how", 2) {
+	case 0:
+		p.SetWorkerSizeMaximum(newMax).SetWorkerSizeStandBy(vfRange("new-standby", 0, 1)).SetWorkerBatchSize(1).
+			SetSpawnWorkerDuration(20 * time.Millisecond).SetWorkerExpiryDuration(time.Hour).SetWorkerJamDuration(time.Hour).
+			SetScheduleRetryInterval(50 * time.Millisecond)
+	default:
+		st := p.DefaultWorkerPoolSettings
+		st.workerSizeMaximum = newMax
+		p.SetDefaultWorkerPoolSettings(st)
+	}
+	vfQuiesce()
+	accepted := 0
+	for i := 1; i <= 3; i++ {
+		if p.Schedule(l.job(i, false, true)) == nil {
+			accepted++
+		}
+	}
+	p2 := c09Pool(l, 1, 0, 2, 0)
+	got := -1
+	x := vfInt("x")
+	inv := NewDefaultInvokable[int](p, func(v int) { got = v })
+	inv.SetWorkerPool(p2)
+	p.Close()
+	inv.Invoke(x) // goes to p2, which is open
+	vfQuiesce()
+	ran := 0
+	for i := 1; i <= 3; i++ {
+		vfAssert("accepted-job-ran-exactly-once", l.started[i] <= 1)
+		ran += l.started[i]
+	}
+	vfAssert("never-more-than-maximum-running", l.maxRunning <= newMax)
+	vfAssert("invoked-with-its-value", got == x)
+	_ = accepted
+	vfReach("end")
+}
+
 func vh_C09_Invoke() {
 	vfSetMapOrder(2)
 	l := &c09Log{started: map[int]int{}}
